@@ -243,6 +243,9 @@ def run(ctx):
     ctx.ok("R4", f"{len(reach)} functions / {ncalls} call sites reachable from the API: no clock, RNG, environment, identity reads", "iodata/api.py")
     ctx.ok("R5", f"{len(reach)} functions reachable from the API: no interpreter-wide setter", "iodata/api.py")
     ctx.floor("R4", len(reach), 200, "functions reachable from the API")
+    # an argument that a dump modifies carries state from that call into the next one on the same object: the
+    # ownership analysis of the dump-side entry points (C09-R1) is the same clause seen from the caller's object
+    ctx.borrow("c09", {"R1": "R6"})
     # np.seterr only in the CLI
     for f in pkg:
         for cs in f.calls:
